@@ -1531,3 +1531,166 @@ async fn maybe_next<S: Stream + Unpin>(maybe_stream: Option<&mut S>) -> Option<O
         Some(s) => Some(s.next().await),
     }
 }
+
+/// Verification hooks, compiled only with `--cfg iroh_verif`.
+///
+/// Lets an external harness drive the resolve / address-lookup plumbing of a real
+/// [`RemoteStateActor`] step by step, without spawning its run loop and without any
+/// connection.  Nothing here exists in a normal build.
+#[cfg(iroh_verif)]
+pub mod verif_hooks {
+    use std::{collections::BTreeSet, sync::Arc};
+
+    use iroh_base::{EndpointId, TransportAddr};
+    use n0_future::{StreamExt, time::Instant};
+    use n0_watcher::Watchable;
+    use tokio::sync::oneshot;
+
+    use super::{
+        RemoteStateActor, Source, now_or_never,
+        path_state::verif_hooks::{self as path_hooks, Status},
+    };
+    use crate::{
+        address_lookup::{AddressLookupFailed, AddressLookupServices},
+        endpoint::DirectAddr,
+        socket::{biased_rtt_path_selector::BiasedRttPathSelector, transports},
+    };
+
+    /// What one poll of the address lookup stream did (the `address_lookup_stream` arm of
+    /// the actor's `select!`, run once).
+    #[derive(Debug, Clone, Copy, PartialEq, Eq)]
+    pub enum LookupPoll {
+        /// No address lookup is running (`address_lookup_stream` is `None`).
+        NotRunning,
+        /// The stream had nothing ready; nothing was handled.
+        Pending,
+        /// An item was handed to `handle_address_lookup_item`.
+        Item,
+        /// The stream ended; `handle_address_lookup_item(None)` ran.
+        FinishedOk,
+        /// The stream failed with `NoServiceConfigured`; handled.
+        FinishedNoService,
+        /// The stream failed with `NoResults`; handled.
+        FinishedNoResults,
+    }
+
+    /// A real `RemoteStateActor` that is never spawned: the harness calls the handlers the
+    /// run loop would call.
+    #[derive(derive_more::Debug)]
+    pub struct ResolveDriver {
+        #[debug(skip)]
+        actor: RemoteStateActor,
+        #[debug(skip)]
+        _local_addrs: Watchable<BTreeSet<DirectAddr>>,
+        epoch: Instant,
+    }
+
+    impl ResolveDriver {
+        /// An actor state for `endpoint_id` with the given lookup services, no connections,
+        /// no local addresses, default metrics and the default path selector.
+        pub fn new(endpoint_id: EndpointId, address_lookup: AddressLookupServices) -> Self {
+            let local_addrs: Watchable<BTreeSet<DirectAddr>> = Watchable::new(BTreeSet::new());
+            let actor = RemoteStateActor::new(
+                endpoint_id,
+                local_addrs.watch(),
+                Default::default(),
+                Default::default(),
+                Arc::default(),
+                address_lookup,
+                Arc::new(BiasedRttPathSelector::default()),
+            );
+            Self {
+                actor,
+                _local_addrs: local_addrs,
+                epoch: Instant::now(),
+            }
+        }
+
+        /// `State::handle_msg_resolve_remote`; returns the receiving end of the request.
+        pub fn resolve_remote(
+            &mut self,
+            addrs: BTreeSet<TransportAddr>,
+        ) -> oneshot::Receiver<Result<(), AddressLookupFailed>> {
+            let (tx, rx) = oneshot::channel();
+            self.actor.state.handle_msg_resolve_remote(addrs, tx);
+            rx
+        }
+
+        /// `RemotePathState::insert_open_path(addr, Source::Connection)`: what
+        /// `register_and_configure_path` does to the path state when a path opens.
+        pub fn insert_open_path(&mut self, addr: transports::Addr) {
+            self.actor
+                .state
+                .paths
+                .insert_open_path(addr, Source::Connection);
+        }
+
+        /// `RemotePathState::insert_multiple(addrs, Source::App)`.
+        pub fn insert_multiple(&mut self, addrs: Vec<transports::Addr>) {
+            self.actor
+                .state
+                .paths
+                .insert_multiple(addrs.into_iter(), Source::App);
+        }
+
+        /// `RemotePathState::abandoned_path`: what the `Abandoned` path event does to the
+        /// path state once no connection has a path to `addr`.
+        pub fn abandoned_path(&mut self, addr: &transports::Addr) {
+            self.actor.state.paths.abandoned_path(addr);
+        }
+
+        /// `RemotePathState::prune_paths`.
+        pub fn prune(&mut self) {
+            self.actor.state.paths.prune_paths();
+        }
+
+        /// Sets `State::selected_path` (to the four-tuple with only a remote), as
+        /// `select_path` does, or clears it, as `handle_connection_close` does for the last
+        /// connection.
+        pub fn set_selected_path(&mut self, remote: Option<transports::Addr>) {
+            self.actor.state.selected_path = remote.map(transports::FourTuple::from_remote);
+        }
+
+        /// The remote address of `State::selected_path`.
+        pub fn selected_path(&self) -> Option<transports::Addr> {
+            self.actor.state.selected_path.as_ref().map(|p| p.remote())
+        }
+
+        /// Whether an address lookup is running (`address_lookup_stream.is_some()`).
+        pub fn address_lookup_running(&self) -> bool {
+            self.actor.state.address_lookup_stream.is_some()
+        }
+
+        /// Runs the `address_lookup_stream` arm of the run loop once: polls the stream and,
+        /// if an item (or the end) is ready, passes it to `handle_address_lookup_item`.
+        pub fn poll_address_lookup(&mut self) -> LookupPoll {
+            let Some(stream) = self.actor.state.address_lookup_stream.as_mut() else {
+                return LookupPoll::NotRunning;
+            };
+            let Some(item) = now_or_never(stream.next()) else {
+                return LookupPoll::Pending;
+            };
+            let kind = match &item {
+                None => LookupPoll::FinishedOk,
+                Some(Ok(_)) => LookupPoll::Item,
+                Some(Err(AddressLookupFailed::NoServiceConfigured { .. })) => {
+                    LookupPoll::FinishedNoService
+                }
+                Some(Err(_)) => LookupPoll::FinishedNoResults,
+            };
+            self.actor.state.handle_address_lookup_item(item);
+            kind
+        }
+
+        /// All known paths with their status, in map iteration order; close times as
+        /// offsets from the creation of this driver.
+        pub fn paths(&self) -> Vec<(transports::Addr, Status)> {
+            path_hooks::list_paths(&self.actor.state.paths, self.epoch)
+        }
+
+        /// Number of queued resolve requests.
+        pub fn pending_resolve_requests(&self) -> usize {
+            path_hooks::pending_resolve_requests(&self.actor.state.paths)
+        }
+    }
+}
